@@ -329,7 +329,8 @@ func (fr *frame) countStore(in *ssa.Store, h Heap) Heap {
 		}
 	}
 	for _, cs := range x.con.Counts {
-		if cs[1] != "store:"+name && cs[1] != fmt.Sprintf("store:%s#%d", name, ord) {
+		// the ordinal form names the k-th such store of the contracted function's own body (not of an inlined callee)
+		if cs[1] != "store:"+name && (fr.depth != 0 || cs[1] != fmt.Sprintf("store:%s#%d", name, ord)) {
 			continue
 		}
 		if x.countHits == nil {
